@@ -492,6 +492,12 @@ add('transcription.offset_precision_recall_f1', TR.offset_precision_recall_f1, b
     _sz(NOTE_Q, NOTE_T), funcs=['transcription.offset_precision_recall_f1', 'transcription.match_note_offsets'], perfect=[1, 1, 1],
     mono=[('offset_min_tolerance', [0, 1, 2])], exact_floats=False, shift=shift_notes)
 
+# ---- transcription with velocities: the regression (np.linalg.lstsq) is nondeterministic, results hold for any slope/intercept
+add('transcription_velocity.precision_recall_f1_overlap', TV.precision_recall_f1_overlap, b_notes(velocity=True, tol_kw=('velocity_tolerance',)),
+    [('P', 'unit'), ('R', 'unit'), ('F', 'unit'), ('AOR', 'le1')], _sz([(0, 1), (1, 1), (1, 2)], [(0, 1), (1, 1), (1, 2), (2, 2)]),
+    funcs=['transcription_velocity.precision_recall_f1_overlap', 'transcription_velocity.match_notes', 'transcription_velocity.validate'],
+    mono=[('velocity_tolerance', [0, 1, 2])], exact_floats=False, skip=('C02', 'C15', 'C08'), timeout_s=1500)
+
 # ---- tempo, key
 add('tempo.detection', TEMPO.detection, b_tempo, [('P', 'unit'), ('one', 'binary'), ('both', 'binary')], _sz([(2, 2)], [(2, 2)]),
     funcs=['tempo.detection', 'tempo.validate', 'tempo.validate_tempi'], mono=[('tol', [0, 1, 2])], nested=[(2, 1)])
